@@ -58,7 +58,8 @@ def main():
             try:
                 _f = os.environ.get("VERIF_NUMMODE")
                 _tb.NUMMODE = int(_f) if _f else _tb.nummode_of(c)
-                _tb.PRECHIST = _tb.prechist_of(c)
+                _h = os.environ.get("VERIF_PRECHIST")
+                _tb.PRECHIST = int(_h) if _h else _tb.prechist_of(c)
                 r = mod.run(c)
             finally:
                 signal.setitimer(signal.ITIMER_REAL, 0)
